@@ -483,7 +483,7 @@ func flipIn(r *hx.Rng, b []byte, lo, hi int) []byte {
 var fullMuts = []string{"ct", "z", "z-norm", "hint-add", "hint-del", "hint-move", "msg", "ctx", "pk-rho", "pk-t1", "other-key"}
 
 // mutations rejected by the decoder (cheap for the model)
-var cheapMuts = []string{"trunc", "extend", "empty", "hint-swap", "hint-equal", "hint-pad", "hint-cntdec", "hint-cntbig", "ctxlong", "pk-short"}
+var cheapMuts = []string{"trunc", "extend", "empty", "hint-dup", "hint-swap", "hint-equal", "hint-pad", "hint-cntdec", "hint-cntbig", "ctxlong", "pk-short"}
 
 func (b *base) mutate(r *hx.Rng, kind string) string {
 	p := b.p
@@ -586,6 +586,24 @@ func (b *base) mutate(r *hx.Rng, kind string) string {
 					sig[j+1] = sig[j]
 				}
 				return vfLine(p, b.pkb, b.msg, b.ctx, sig, "-"+kind)
+			}
+		}
+		return vfLine(p, b.pkb, b.msg, b.ctx, sig[:len(sig)-1], "-trunc")
+	case "hint-dup":
+		// the same hint vector with one index written twice (the row grows by one
+		// entry): a second encoding of the SAME h — a strict decoder must refuse it
+		if w < p.omega && w > 0 {
+			for try := 0; try < 100; try++ {
+				row := r.Intn(p.k)
+				lo, hi := rowBounds(row)
+				if hi > lo {
+					j := lo + r.Intn(hi-lo)
+					copy(sig[hOff+j+1:hOff+p.omega], clone(sig[hOff+j:hOff+p.omega-1]))
+					for t := row; t < p.k; t++ {
+						sig[cntOff+t]++
+					}
+					return vfLine(p, b.pkb, b.msg, b.ctx, sig, "-hint-dup")
+				}
 			}
 		}
 		return vfLine(p, b.pkb, b.msg, b.ctx, sig[:len(sig)-1], "-trunc")
@@ -713,7 +731,7 @@ type budget struct {
 }
 
 func gen(r *hx.Rng, n int, tier string) []string {
-	bd := budget{kg: 1, sg: 1, vfFull: 5, vfCheap: 8, ts: 1, tv: 2, ph: 1, search: 1000, maxIt: 3}
+	bd := budget{kg: 1, sg: 1, vfFull: 5, vfCheap: 11, ts: 1, tv: 2, ph: 1, search: 1000, maxIt: 3}
 	if tier == "thorough" {
 		bd = budget{kg: 8, sg: 6, vfFull: 40, vfCheap: 40, ts: 4, tv: 8, ph: 3, search: 20000, maxIt: 1000}
 	}
